@@ -606,12 +606,18 @@ class EvalMixin(InterpBase):
                 args, kwargs = self.eval_args(node, fr)
                 con = self.registry[ac[txt]]
                 names = list(con.params.keys())
+                if len(args) > len(names):
+                    # the assumed contract describes the call with at most its own parameters: a call that passes MORE positional arguments
+                    # (f.readlines(hint), ...) is a different call - not covered by the assumption
+                    raise Unsupported(f"call {txt}(...) passes {len(args)} positional arguments, its assumed contract {con.key} describes {len(names)}")
                 bound = {}
                 for i, n in enumerate(names):
                     if i < len(args):
                         bound[n] = args[i]
                     elif n in kwargs:
                         bound[n] = kwargs[n]
+                if isinstance(node.func, ast.Attribute) and "self" not in bound and getattr(con, "binds_receiver", False):
+                    bound["self"] = self.ev(node.func.value, fr)          # `x.m(...)` replaced by a contract that speaks about its receiver
                 return self.apply_contract(con, bound, fr, "builtins", None)
         f = self.ev(node.func, fr)
         args, kwargs = self.eval_args(node, fr)
